@@ -120,8 +120,15 @@ def _task_codec(args):
                     enc, dec = NMEA2000Encoder(), NMEA2000Decoder()
                     try:
                         packets = encode(enc, fmt, m0)
-                    except Exception:  # noqa: BLE001
-                        break       # not encodable as such: C09's subject
+                    except Exception as ex:  # noqa: BLE001
+                        # a decoded in-range message of an encodable definition that the encoder refuses: only fields wider than
+                        # 48 bits / floats may fail here (values beyond float precision; C02's subject), anything else is a finding
+                        if not any((f.bits or 0) > 48 or f.type == "FLOAT" for f in defn.fields) and len(vios) < 60:
+                            vios.append({"kind": "roundtrip", "facts": {"format": fmt, "definition": defn.id, "mechanism": "encoder_refuses_decoded_message"},
+                                         "signature": f"encfail:{fmt}:{defn.pgn}:{defn.id}",
+                                         "detail": f"[PGN {defn.pgn} {defn.id} base={base} prio={prio} src={src} dst={dst} {fmt}] the encoder refuses the decoded message: {type(ex).__name__}: {ex}",
+                                         "case": {"part": "codec", "pgn": defn.pgn, "definition": defn.id, "base": base, "addr": [prio, src, dst], "format": fmt}})
+                        break
                     st["roundtrips"] += 1
                     st["packets"] += len(packets)
                     if len(packets) > 1 or (defn.length or 8) < 8:
